@@ -238,13 +238,13 @@ CHECKS["C14"] = dict(
 CHECKS["C19"] = dict(
     text="Lean: an effect model of every place where the interpreter decides by ctx.online (printing, evaluate, call on a string, execute, "
          "input parsing, the error wrappers) with theorems for ALL operation sequences: online there is no host output, no eval/exec of user "
-         "text, no propagated exception, and the output record equals the offline stdout; kernel-checked sinks_accounted over the regenerated "
+         "text, no propagated exception, and the output record collects every text handed to a print operation (the sequence that goes to stdout offline); kernel-checked sinks_accounted over the regenerated "
          "inventory of every syntactic sink call (in vyxal/*.py AND inside the element templates) with its dominating ctx.online tests, and "
          "user_text_sinks_guarded over the audited classification, and containment_handlers_broad over the regenerated inventory of every "
          "try statement: the five error-containment sites (vy_eval online, get_input, the three stages of execute_vyxal) exist and catch "
          "Exception. Tie: translator (inventory) + child-process runs under sys.addaudithook "
          "with fd-level stdout capture and tainted inputs / literals: host stdout empty, no tainted compile/exec outside string constants of "
-         "generated code, no os.system / subprocess / socket events, errors end in the error record, record == offline stdout.",
+         "generated code, no os.system / subprocess / socket events, errors end in the error record, nothing the offline run prints is missing from the record (the values themselves may differ where text reaches vy_eval: literal-only online, eval offline).",
     note=COMMON_NOTE + "Partial: the theorem is over the effect model; that no other path reaches a sink rests on the syntactic inventory (T8) and the audit-hook runs. "
          "input() at end of input reads the host's stdin in both modes (not an execution of user text).",
     technique="Lean 4 proof (effect traces, induction over operation sequences, decide +kernel over the regenerated sink inventory); audit-hook differential online vs offline",
@@ -307,14 +307,14 @@ def main():
             na.append({"property_id": pid, "reason": NOT_YET.get(pid, "check not built yet in this tree (planned, see DESIGN.md §9); nothing is claimed for it")})
     man = {
         "version": 1,
-        "setup_cmd": "tools/extract.py && cd lean && lake build",
+        "setup_cmd": "tools/setup.sh",
         "hooks": {"guard": "MATHCAT4_VYXAL2_VERIF", "enable": "no source hooks are needed: checks import /repo in-process and patch nothing in the tree",
                   "baseline_off_cmd": "cd /repo && /venv/bin/python -m pytest -q -p no:cacheprovider --timeout=900",
                   "source_commits": [], "add_only": True},
         "engines": [{"name": "lean4-model", "path": "lean/", "serves_properties": [c["property_id"] for c in checks],
                      "kind_free_text": "Lean 4 executable model + theorems (lake project, no Mathlib require), translator tools/extract.py, compiled driver vyxdrv, Python correspondence harness harness/"}],
         "checks": checks,
-        "notes": "Every check: ./check <id> regenerates Gen/*.lean from /repo, rebuilds the property's proof module, audits axioms, runs the correspondence and the direct oracles, and searches for a failing input when an obligation or the correspondence breaks. Exit 2 = the check's own machinery timed out.",
+        "notes": "Every check: ./check <id> regenerates Gen/*.lean from /repo, rebuilds the property's proof module, audits axioms, runs the correspondence and the direct oracles, and searches for a failing input when an obligation or the correspondence breaks. Exit 2 = the check's own machinery timed out. setup_cmd (tools/setup.sh) only regenerates and pre-builds: a proof module that no longer checks against the current source does not fail setup (it is reported by the check of its property); setup fails only when the toolchain is unusable.",
         "not_applicable": na,
     }
     with open(os.path.join(VERIF, "MANIFEST.json"), "w", encoding="utf-8") as f:
